@@ -182,3 +182,92 @@ CHECK_DEADLOCK FALSE
 def outcome(run, maxn, defect="FALSE", expect_violation=None):
     cfg = OUTCOME_CFG % dict(defect=defect, maxn=maxn)
     return run_mc(run, "MC_Outcome", cfg, "outcome-n%d-%s" % (maxn, defect), emit=False, expect_violation=expect_violation)
+
+
+SEQ_CFG = """SPECIFICATION SSpec
+CONSTANTS
+  FloatRankUsesIndex = FALSE
+  TauZeroFallsBack = FALSE
+  LimitSigmaWriteBack = FALSE
+  RateEffects = {"inplace"}
+  Kind = "%(kind)s"
+  MaxDepth = %(depth)d
+  EmitDepth = %(depth)d
+  Models <- MCModels
+  Cast <- MCCast
+  RateCalls <- MCRateCalls
+  PredictCalls <- MCPredictCalls
+  ObjectCalls <- MCObjectCalls
+INVARIANT Inv_C02
+INVARIANT Inv_C05
+INVARIANT Inv_C06
+INVARIANT Inv_C07
+INVARIANT Inv_C13
+INVARIANT Inv_C14
+INVARIANT Inv_Predict
+INVARIANT Inv_Obj
+INVARIANT HeapFollowsLast
+INVARIANT EmitHist
+PROPERTY ModelsNeverChange
+CHECK_DEADLOCK FALSE
+"""
+
+
+def sequences(run, kind, depth, want, simulate=None, seed=1):
+    """Behaviours of the state machine (exhaustive to depth, or simulated), replayed on live objects."""
+    import plans
+
+    cfg = SEQ_CFG % dict(kind=kind, depth=depth)
+    tag = "seq-%s-d%d%s" % (kind, depth, "-sim" if simulate else "")
+    emit_file = os.path.join(run.wd, "emit-%s.ndjson" % tag)
+    if os.path.exists(emit_file):
+        os.remove(emit_file)
+    t0 = time.time()
+    if simulate:
+        rc, out = tlc.run_tlc("MC_Seq", cfg, run.wd, env={"EMIT_FILE": emit_file}, workers=tlc.NCPU, heap="8g",
+                              simulate="num=%d" % simulate, extra=["-depth", str(depth + 1), "-seed", str(seed)])
+    else:
+        rc, out = tlc.run_tlc("MC_Seq", cfg, run.wd, env={"EMIT_FILE": emit_file}, workers=tlc.NCPU, heap="12g")
+    if rc != 0 or "Error:" in out or "violated" in out:
+        log = os.path.join(run.wd, "mc-%s.log" % tag)
+        open(log, "w").write(out)
+        i = out.find("Error:")
+        raise MachineryError("MC_Seq %s failed (rc=%d), log %s\n%s" % (tag, rc, log, out[i:i + 2500] if i >= 0 else out[-2000:]))
+    gen, dist = tlc.tlc_stats(out)
+    if simulate:
+        m = re.findall(r"(\d+) states checked", out)
+        gen = dist = int(m[-1]) if m else 0
+    hists = []
+    seen = set()
+    with open(emit_file) as f:
+        for line in f:
+            if line in seen:
+                continue
+            seen.add(line)
+            h = json.loads(line)
+            if isinstance(h, dict):      # ToJson of a one-element sequence can come out as an object keyed by index
+                h = [h[k] for k in sorted(h, key=int)]
+            hists.append(h)
+    # replay only maximal behaviours (a prefix is covered by its extensions) unless exhaustive depth is small
+    keys = {json.dumps([_call_key(e) for e in h]) for h in hists}
+    maximal = [h for h in hists if len(h) == depth or not any(k.startswith(json.dumps([_call_key(e) for e in h])[:-1] + ",") for k in keys)]
+    run.states += dist
+    run.transitions += gen
+    run.mc_runs.append({"module": "MC_Seq", "instance": tag, "distinct_states": dist, "states_generated": gen,
+                        "behaviours_emitted": len(hists), "behaviours_replayed": len(maximal), "wall_s": round(time.time() - t0, 1),
+                        "exhaustive": not simulate})
+    rp = Replayer(follow=False)
+    for h in maximal:
+        rp.reset()
+        for ev in h:
+            rp.perform(ev)
+    plans.validate_events(run, rp.sess.events, want, "replay:" + tag)
+    return len(maximal)
+
+
+def _call_key(e):
+    k = {x: e.get(x) for x in ("op", "cmpop", "ranks", "scores", "tau", "limit", "mu", "arg", "a", "b")}
+    k["m"] = e.get("model", {}).get("id")
+    t = e.get("teams")
+    k["teams"] = json.dumps(t, sort_keys=True)[:0] + (json.dumps([[l.get("ref") for l in tm.get("items", [])] for tm in t.get("items", [])]) if t and t.get("t") == "list" else "")
+    return k
